@@ -42,7 +42,9 @@ type Profile struct {
 	Property string
 	Engine   string // syssim | storesim | subsim | v3sim
 	Gen      func(seed uint64, tier string) *Plan
-	Arm      func(s *Sys)
+	// GenOrd, when set, generates from (base seed, run ordinal) instead: consecutive ordinals may share a base scenario
+	GenOrd func(base uint64, ord int, tier string) *Plan
+	Arm    func(s *Sys)
 	// NonTrivial decides whether a finished run counts as non-trivial for the property's rule.
 	NonTrivial func(s *Sys) bool
 	Rule       string
@@ -105,6 +107,7 @@ func runSys(t *testing.T, plan *Plan, prof *Profile) *Result {
 			res.Trace = s.K.Trace
 			res.TraceHash = fmt.Sprintf("%016x", s.K.TraceHash())
 			res.Summary = s.K.Canon(s.Rec.Summary())
+			s.K.Stats["atomix-writes"] = s.RT.Writes
 			res.Stats = s.K.Stats
 			res.Probes = s.K.Probes
 			res.SimTimeS = time.Since(t0).Seconds()
